@@ -13,10 +13,12 @@ from .sym.core import CTX, EngineAbort
 SEED = int(os.environ.get("VERIF_SEED", "0") or 0)
 
 
-def new_solver(timeout_ms):
+def new_solver(timeout_ms, opts=None):
     s = z3.Solver()
     s.set("timeout", timeout_ms)
     s.set("random_seed", SEED)
+    for k, v in (opts or {}).items():
+        s.set(k, v)
     return s
 
 
@@ -219,7 +221,7 @@ def explore(h, known=None, collect_validation=2, profile_root=None):
             res.budget_exhausted = True
             break
         prefix, extra, bound = work.pop()
-        s = new_solver(h.timeout_ms)
+        s = new_solver(h.timeout_ms, getattr(h, 'solver_opts', None))
         s.add(*pre)
         s.add(*prefix)
         s.add(*extra)
@@ -279,7 +281,7 @@ def explore(h, known=None, collect_validation=2, profile_root=None):
                 res.discharged += 1  # holds syntactically on this path (concrete outcome on a decided path)
                 continue
             while True:
-                s2 = new_solver(h.timeout_ms)
+                s2 = new_solver(h.timeout_ms, getattr(h, 'solver_opts', None))
                 s2.add(*pre)
                 s2.add(*pc)
                 s2.add(z3.Not(ob.term))
